@@ -114,10 +114,14 @@ func TestC14Differential(t *testing.T) {
 
 func TestC14Packages(t *testing.T) {
 	st := NewStats("C14", "packages", "scenario = real Package controller deploying generated valid packages with the EachObject / default chunking strategy over histories of package updates (image and config edits back and forth, so slices are added, dropped and re-created), third parties squatting the names of dropped slices with other content, interleaved with the ObjectDeployment/ObjectSet controllers; oracle = at every ObjectSlice delete the slice is referenced by neither the deployment template nor any existing ObjectSet, slice contents are never rewritten, and the deployment template with slices inlined equals the reference render (so a colliding name is never reused for other content); non-trivial = a slice was deleted or a name squatted")
+	DepName = pkgNames[0]
+	defer func() { DepName = "dep" }()
 	mk := func(sc *Scenario) (*Runner, *C14SliceGCMonitor) {
 		m := &C14SliceGCMonitor{}
 		c16 := &C16Monitor{}
-		r := NewRunner(sc, m, c16)
+		// "rolls out ... exactly like the same ObjectSet with the objects inline" includes the deployment's archival decisions
+		// (C08 rules), which look at the objects of the newest revision
+		r := NewRunner(sc, m, c16, &C08Monitor{})
 		c16.Env = &r.EnvIdx
 		return r, m
 	}
@@ -125,6 +129,7 @@ func TestC14Packages(t *testing.T) {
 		return ReplayScenario(data, func(sc *Scenario) *Runner { r, _ := mk(sc); return r })
 	}, func(rt *rapid.T) {
 		sc := genPackageWorld(rt, "C14", false, []string{"EachObject", "EachObject", ""})
+		sc.Part = "packages"
 		// sprinkle slice-name squatting and history pruning so dropped slices get collected
 		var steps []Step
 		for i, s := range sc.Steps {
@@ -139,6 +144,10 @@ func TestC14Packages(t *testing.T) {
 		if v, ok := err.(*Violation); ok && v.Prop == "C16" {
 			v.Prop = "C14"
 			v.Key = "via-template-check:" + v.Key
+		}
+		if v, ok := err.(*Violation); ok && v.Prop == "C08" {
+			v.Prop = "C14"
+			v.Key = "via-C08:" + v.Key
 		}
 		st.Count("slice_deletes", int64(m.Deletes))
 		st.Case(sc, r.Labels["c14-slice-deleted"] || r.Labels["c14-slice-name-squatted"], r.LabelList()...)
